@@ -228,6 +228,15 @@ func checkC01(tier string) int {
 					return true
 				}
 			}
+			// one of the strangers is stopped and started again now and then, at heights that are not the first
+			// block of a reward cycle: what a node keeps in memory between blocks is a node-local circumstance
+			if blk.H == 10 || (blk.H > 10 && blk.H%23 == 4) {
+				if err := run.Reps[3].Box.Restart(); err != nil {
+					r.Inconclusive("restart of stranger2 failed: " + err.Error())
+					return true
+				}
+				r.Count("replica_restarts_mid_history", 1)
+			}
 			return false
 		}
 		res := drive.Run(cfg)
